@@ -17,6 +17,9 @@ PRELUDE = '''
   #[derive(Debug, Clone)] pub struct VpIoErr;
   impl MechErrorKind for VpIoErr { fn name(&self) -> &str { "io" } fn message(&self) -> String { String::new() } }
   pub fn vp_from_io(e: std::io::Error) -> MechError { forget(e); MechError::new(VpIoErr, None) }
+  // HashMap/HashSet semantics do not depend on the hasher keys: fixed keys are behaviour-preserving for every map
+  // operation and keep the getrandom loop out of the query
+  pub fn vp_random_state() -> ::std::hash::RandomState { unsafe { ::std::mem::transmute::<[u64; 2], ::std::hash::RandomState>([0x0123_4567_89ab_cdefu64, 0x0fed_cba9_8765_4321u64]) } }
   pub fn vp_crc_sum(b: &[u8]) -> u32 { let mut s: u32 = 0x1234_5678; let mut i = 0; while i < b.len() { s = s.wrapping_mul(31).wrapping_add(b[i] as u32); i += 1; } s }
   pub fn vp_crc_real(b: &[u8]) -> u32 { let mut h = crc32fast::Hasher::internal_new_baseline(0, 0); h.update(b); h.finalize() }
   pub fn vp_header(const_count: u32, tbl_off: u64, tbl_len: u64, blob_off: u64, blob_len: u64, instr_off: u64, instr_len: u64,
@@ -27,6 +30,8 @@ PRELUDE = '''
   }
 '''
 
+STUB_RS = "#[kani::stub(::std::hash::RandomState::new, vp_random_state)]"
+STUB_VKH = "#[kani::stub(<crate::ValueKind as ::std::hash::Hash>::hash, vp_vk_hash)]"
 STUB_IOERR = "#[kani::stub(<crate::MechError as ::std::convert::From<::std::io::Error>>::from, vp_from_io)]"
 STUB_NONDET = "#[kani::stub(crc32fast::hash, vp_crc_nondet)]"
 STUB_SUM = "#[kani::stub(crc32fast::hash, vp_crc_sum)]"
@@ -37,7 +42,7 @@ FNS_LOADER = ["load_program_from_bytes", "verify_crc_trailer_seek", "load_progra
 
 def mk(name, body, domain, key, desc, fns, bounds, unwind, tier, attrs, nonterm=False):
     h = H(name, "    " + "\n    ".join(body), WHERE, domain=domain, key=key, desc=desc, functions=fns, bounds=bounds, unwind=unwind, tier=tier)
-    h.attrs = attrs + [STUB_IOERR]
+    h.attrs = attrs + [STUB_IOERR, STUB_RS]
     h.stub_loc = True
     if nonterm:
         h.nonterm_is_violation = True
@@ -69,7 +74,7 @@ def gen_short(tier):
 
 def gen_loader_nopanic(variant, tier):
     """symbolic header over a small symbolic body: no panic after the gate.  variant selects which sections are live."""
-    body_n = 40
+    body_n = 16
     total = 137 + body_n + 4
     b = []
     if variant == "offsets":
@@ -102,21 +107,74 @@ def gen_loader_nopanic(variant, tier):
 
 
 def gen_decode_instr(n, tier):
-    b = ["let bytes: [u8; %d] = kani::any();" % n, "let len: usize = kani::any(); kani::assume(len <= %d);" % n,
+    b = ["let bytes: [u8; %d] = kani::any();" % n,
          "kani::cover!(true, \"VP:reached-call\");",
-         "let r = decode_instructions(Cursor::new(&bytes[..len]));",
+         "let r = decode_instructions(Cursor::new(&bytes[..]));",
          "match &r {", "  Ok(instrs) => {",
          "    let mut out = Cursor::new(Vec::<u8>::new());",
          "    let mut i = 0; while i < instrs.len() { instrs[i].write_to(&mut out).unwrap(); i += 1; }",
          "    let out = out.into_inner();",
-         "    assert!(out.len() == len, \"VP:reencoded-length-differs\");",
-         "    let mut k = 0; let mut same = true; while k < len { if k < out.len() && out[k] != bytes[k] { same = false; } k += 1; }",
+         "    assert!(out.len() == %d, \"VP:reencoded-length-differs\");" % n,
+         "    let mut k = 0; let mut same = true; while k < %d { if k < out.len() && out[k] != bytes[k] { same = false; } k += 1; }" % n,
          "    assert!(same, \"VP:reencoded-bytes-differ\");",
          "    kani::cover!(instrs.len() >= 1, \"VP:reached-decoded\");", "    forget(out);", "  }",
          "  Err(_) => { kani::cover!(true, \"VP:reached-err\"); }", "}", "forget(r);"]
     return mk("c07_decode_instructions_%d" % n, b, "accept", "decode_instructions/%d" % n,
-              "decode_instructions on any byte string of length <= %d: no panic; when it decodes, re-encoding the instructions gives the same bytes" % n,
-              ["decode_instructions", "DecodedInstr::write_to"], "instruction stream <= %d symbolic bytes" % n, n + 3, tier, [])
+              "decode_instructions on any byte string of length %d: no panic; when it decodes, re-encoding the instructions gives the same bytes" % n,
+              ["decode_instructions", "DecodedInstr::write_to"], "instruction stream of exactly %d symbolic bytes" % n, n + 3, tier, [])
+
+
+def gen_vararg(maxn, tier):
+    b = ["let n: usize = kani::any(); kani::assume(n <= %d);" % maxn, "let arr: [u32; %d] = kani::any();" % maxn,
+         "let fxn_id: u64 = kani::any(); let dst: u32 = kani::any();",
+         "let ins = EncodedInstr::VarArg { fxn_id, dst, args: arr[..n].to_vec() };",
+         "let mut buf = Cursor::new(Vec::<u8>::new()); ins.write_to(&mut buf).unwrap(); let bytes = buf.into_inner();",
+         "assert!(bytes.len() as u64 == ins.byte_len(), \"VP:byte-len-differs-from-written-length\");",
+         "kani::cover!(n == %d, \"VP:reached-call\");" % maxn,
+         "match decode_instructions(Cursor::new(&bytes[..])) {",
+         "  Err(e) => { forget(e); assert!(false, \"VP:emitted-instruction-rejected\"); }",
+         "  Ok(v) => {",
+         "    assert!(v.len() == 1, \"VP:instruction-count-differs\");",
+         "    match &v[0] { DecodedInstr::VarArg { fxn_id: f2, dst: d2, args } => {",
+         "        assert!(*f2 == fxn_id && *d2 == dst && args.len() == n, \"VP:instruction-differs\");",
+         "        let mut k = 0; let mut same = true; while k < n { if k < args.len() && args[k] != arr[k] { same = false; } k += 1; }",
+         "        assert!(same, \"VP:instruction-operands-differ\"); },",
+         "      _ => { assert!(false, \"VP:instruction-kind-differs\"); } }",
+         "    kani::cover!(true, \"VP:reached\"); forget(v);", "  }", "}", "forget(bytes); forget(ins);"]
+    return mk("c07_vararg_roundtrip_%d" % maxn, b, "accept", "instr-roundtrip/VarArg/%d" % maxn,
+              "a VarArg instruction with n <= %d symbolic operands: write_to then decode_instructions gives the same instruction (horzcat/vertcat of many "
+              "elements compile to this)" % maxn, ["EncodedInstr::write_to/byte_len", "decode_instructions"],
+              "operand count 0..%d, all operand values" % maxn, maxn + 3, tier, [])
+
+
+def gen_instr_kind(kind, ctor, pat, eqs, nbytes, tier):
+    b = ["let fxn_id: u64 = kani::any(); let r: [u32; 5] = kani::any();",
+         "let ins = %s;" % ctor,
+         "let mut buf = Cursor::new(Vec::<u8>::new()); ins.write_to(&mut buf).unwrap(); let bytes = buf.into_inner();",
+         "assert!(bytes.len() as u64 == ins.byte_len() && bytes.len() == %d, \"VP:byte-len-differs-from-written-length\");" % nbytes,
+         "kani::cover!(true, \"VP:reached-call\");",
+         "match decode_instructions(Cursor::new(&bytes[..])) {",
+         "  Err(e) => { forget(e); assert!(false, \"VP:emitted-instruction-rejected\"); }",
+         "  Ok(v) => { assert!(v.len() == 1, \"VP:instruction-count-differs\");",
+         "    match &v[0] { %s => { assert!(%s, \"VP:instruction-differs\"); }, _ => { assert!(false, \"VP:instruction-kind-differs\"); } }" % (pat, eqs),
+         "    kani::cover!(true, \"VP:reached\"); forget(v); }", "}", "forget(bytes); forget(ins);"]
+    return mk("c07_instr_roundtrip_%s" % kind.lower(), b, "accept", "instr-roundtrip/%s" % kind,
+              "a single %s instruction with symbolic fields: write_to then decode_instructions gives the same instruction" % kind,
+              ["EncodedInstr::write_to/byte_len", "decode_instructions"], "all field values", 8, tier, [])
+
+
+INSTR_KINDS = [
+    ("ConstLoad", "EncodedInstr::ConstLoad { dst: r[0], const_id: r[1] }", "DecodedInstr::ConstLoad { dst, const_id }", "*dst == r[0] && *const_id == r[1]", 9, "quick"),
+    ("NullOp", "EncodedInstr::NullOp { fxn_id, dst: r[0] }", "DecodedInstr::NullOp { fxn_id: f2, dst }", "*f2 == fxn_id && *dst == r[0]", 13, "thorough"),
+    ("UnOp", "EncodedInstr::UnOp { fxn_id, dst: r[0], src: r[1] }", "DecodedInstr::UnOp { fxn_id: f2, dst, src }", "*f2 == fxn_id && *dst == r[0] && *src == r[1]", 17, "quick"),
+    ("BinOp", "EncodedInstr::BinOp { fxn_id, dst: r[0], lhs: r[1], rhs: r[2] }", "DecodedInstr::BinOp { fxn_id: f2, dst, lhs, rhs }",
+     "*f2 == fxn_id && *dst == r[0] && *lhs == r[1] && *rhs == r[2]", 21, "quick"),
+    ("TernOp", "EncodedInstr::TernOp { fxn_id, dst: r[0], a: r[1], b: r[2], c: r[3] }", "DecodedInstr::TernOp { fxn_id: f2, dst, a, b, c }",
+     "*f2 == fxn_id && *dst == r[0] && *a == r[1] && *b == r[2] && *c == r[3]", 25, "quick"),
+    ("QuadOp", "EncodedInstr::QuadOp { fxn_id, dst: r[0], a: r[1], b: r[2], c: r[3], d: r[4] }", "DecodedInstr::QuadOp { fxn_id: f2, dst, a, b, c, d }",
+     "*f2 == fxn_id && *dst == r[0] && *a == r[1] && *b == r[2] && *c == r[3] && *d == r[4]", 29, "quick"),
+    ("Ret", "EncodedInstr::Ret { src: r[0] }", "DecodedInstr::Ret { src }", "*src == r[0]", 5, "thorough"),
+]
 
 
 def gen_parse_const_entries(tier):
@@ -134,22 +192,20 @@ SCALAR_TAGS = [("U8", 1), ("U16", 2), ("U32", 4), ("U64", 8), ("U128", 16), ("I8
                ("F32", 4), ("F64", 8), ("C64", 16), ("R64", 16), ("Bool", 1), ("Index", 8)]
 
 
-def gen_decode_const(group, tags, tier):
-    sel = " || ".join("tag == TypeTag::%s as u16" % t for t, _ in tags)
-    b = ["let tag: u16 = kani::any(); kani::assume(%s);" % sel,
-         "let blob: [u8; 16] = kani::any();",
+def gen_decode_const(tagname, size, tier):
+    b = ["let blob: [u8; 16] = kani::any();",
          "let e = ParsedConstEntry { type_id: kani::any(), enc: kani::any(), align: kani::any(), flags: kani::any(), reserved: kani::any(), offset: kani::any(), length: kani::any() };",
          "let mut types = TypeSection::new();",
-         "types.entries.push(TypeEntry { tag: TypeTag::from_u16(tag).unwrap(), bytes: Vec::new() });",
+         "types.entries.push(TypeEntry { tag: TypeTag::%s, bytes: Vec::new() });" % tagname,
          "let p = ParsedProgram { header: vp_header(1, 0, 0, 0, 0, 0, 0, 0, 0, 0, 0, 0, 0), features: Vec::new(), types, const_entries: vec![e],",
          "  const_blob: blob.to_vec(), instr_bytes: Vec::new(), symbols: HashMap::new(), mutable_symbols: HashSet::new(), instrs: Vec::new(), dictionary: HashMap::new() };",
          "kani::cover!(true, \"VP:reached-call\");",
          "let r = p.decode_const_entries();",
          "kani::cover!(r.is_ok(), \"VP:reached-ok\"); kani::cover!(r.is_err(), \"VP:reached-err\");",
          "forget(r); forget(p);"]
-    return mk("c07_decode_const_%s" % group, b, "accept", "decode_const/%s" % group,
-              "decode_const_entries on one fully symbolic constant entry (type id, encoding, alignment, offset, length) of a scalar type {%s} over a "
-              "16-byte symbolic blob: no panic" % ",".join(t for t, _ in tags),
+    return mk("c07_decode_const_%s" % tagname.lower(), b, "accept", "decode_const/%s" % tagname,
+              "decode_const_entries on one fully symbolic constant entry (type id, encoding, alignment, offset, length) whose type section holds a single "
+              "%s type, over a 16-byte symbolic blob: no panic" % tagname,
               ["ParsedProgram::decode_const_entries", "check_alignment"], "1 entry, 1 type entry, blob 16 bytes", 20, tier, [])
 
 
@@ -227,7 +283,7 @@ def gen_burst(n, tier):
          "let mut file: [u8; %d] = [0u8; %d];" % (total, total),
          "let mut i = 0; while i < %d { file[i] = data[i]; i += 1; }" % n,
          "let t = crc.to_le_bytes(); file[%d] = t[0]; file[%d] = t[1]; file[%d] = t[2]; file[%d] = t[3];" % (n, n + 1, n + 2, n + 3),
-         "{ let mut cur = Cursor::new(&file[..]); assert!(verify_crc_trailer_seek(&mut cur, %d).is_ok(), \"VP:emitted-file-rejected\"); }" % total,
+         "{ let mut cur = Cursor::new(&file[..]); let r0 = verify_crc_trailer_seek(&mut cur, %d); assert!(r0.is_ok(), \"VP:emitted-file-rejected\"); forget(r0); }" % total,
          "let start: usize = kani::any(); kani::assume(start < %d * 8);" % total,
          "let pattern: u32 = kani::any(); kani::assume(pattern & 1 == 1);",
          "kani::assume(start + 32 <= %d * 8 || (pattern >> (%d * 8 - start)) == 0);" % (total, total),
@@ -245,11 +301,16 @@ def gen_burst(n, tier):
 def plan(tier, seed):
     hs = [gen_gate(8, "quick"), gen_gate(4, "thorough"), gen_gate(16, "thorough"), gen_short("quick"),
           gen_loader_nopanic("offsets", "quick"), gen_loader_nopanic("consts", "quick"), gen_loader_nopanic("instrs", "quick"),
-          gen_decode_instr(16, "quick"), gen_decode_instr(28, "thorough"), gen_parse_const_entries("quick"),
-          gen_decode_const("ints", SCALAR_TAGS[0:10], "quick"), gen_decode_const("floats", SCALAR_TAGS[10:13], "quick"),
-          gen_decode_const("r64", SCALAR_TAGS[13:14], "quick"), gen_decode_const("bool_index", SCALAR_TAGS[14:16], "quick"),
+          gen_decode_instr(9, "quick"), gen_decode_instr(13, "quick"), gen_decode_instr(18, "thorough"), gen_decode_instr(5, "thorough"), gen_decode_instr(26, "thorough"), gen_parse_const_entries("quick"),
           gen_roundtrip("quick"), gen_symbols(1, "quick"), gen_symbols(12, "quick"), gen_symbols(13, "thorough"),
           gen_burst(4, "quick"), gen_burst(8, "thorough")]
+    qtags = {"U8", "I64", "F64", "R64", "Bool", "U128"}
+    for tagname, size in SCALAR_TAGS:
+        hs.append(gen_decode_const(tagname, size, "quick" if tagname in qtags else "thorough"))
+    hs.append(gen_vararg(18, "quick"))
+    hs.append(gen_vararg(40, "thorough"))
+    for k in INSTR_KINDS:
+        hs.append(gen_instr_kind(*k))
     for t in ["u8", "u16", "i64", "f64", "bool"]:
         hs.append(gen_decode_const_roundtrip(t, "quick"))
     for t in ["u32", "u64", "u128", "i8", "i16", "i32", "i128", "f32", "R64", "C64"]:
